@@ -19,3 +19,25 @@ Definition c09m_case := (bool * list mop * list (list N))%type.
 Definition c09m_ok (c : c09m_case) : bool :=
   let '(server, ops, obs) := c in
   beq_list (beq_list N.eqb) (snd (mrun (mux_new server) ops)) obs.
+
+(* ---- the two ends of one session (Model/MuxPair.v) *)
+From Hop Require Import MuxPair.
+(* app-session-roles: idParity of the muxer hopclient built / of the muxer hopserver's session built, read from a
+   real hopclient<->hopserver session *)
+Definition c09roles_case := (N * N)%type.
+Definition c09roles_ok (c : c09roles_case) : bool :=
+  let '(pc, ps) := c in (pc =? m_parity hopclient_mux) && (ps =? m_parity hopserver_mux).
+
+(* pair-same-role-witness: both ends tubes.Server, one reliable tube each (types 7, 9) created before any
+   datagram is delivered; observed: the two ids, whether either end offered a tube to Accept, whether the
+   bytes written on one tube were read from the other *)
+Definition c09samerole_case := (N * N * N * N * N)%type.
+Definition c09samerole_ok (c : c09samerole_case) : bool :=
+  let '(id0, id1, q0, q1, crossed) := c in
+  let d := [119; 49] in
+  match same_time_create true true 7 9 d, same_time_create true true 9 7 d with
+  | Some (ia, ib, qb, rb), Some (_, _, qa, ra) =>
+      (id0 =? ia) && (id1 =? ib) && (q1 =? b2n qb) && (q0 =? b2n qa) &&
+      (crossed =? b2n (beq_list N.eqb rb d && beq_list N.eqb ra d))
+  | _, _ => false
+  end.
